@@ -5,6 +5,10 @@ import multiprocessing as mp
 
 ROOT = os.path.dirname(os.path.dirname(os.path.abspath(__file__)))
 sys.path.insert(0, ROOT)
+# testing aid for the seeded changes (tools/seed_run.sh): a scratch worktree of /repo can be checked without touching /repo itself.
+# The registered commands never set these variables: they check /repo and write into /verif.
+REPO = os.environ.get('VERIF_REPO_ROOT', '/repo').rstrip('/')
+OUT = os.environ.get('VERIF_OUT', ROOT)
 
 
 def _init_worker():
@@ -23,7 +27,7 @@ def _run_job(args):
     t0 = time.time()
     try:
         import numqi
-        assert numqi.__file__.startswith('/repo/python'), numqi.__file__
+        assert numqi.__file__.startswith(REPO + '/python'), numqi.__file__
         mod = importlib.import_module(modname)
         import numpy as np
         rng = np.random.default_rng([seed, int(hashlib.sha1((fn + repr(sorted(kwargs.items()))).encode()).hexdigest()[:8], 16)])
@@ -71,8 +75,8 @@ def main(argv=None):
     modname = f'contracts.{prop.lower()}'
     t0 = time.time()
     import numqi
-    if not numqi.__file__.startswith('/repo/python'):
-        print(f'ENGINE-FAULT numqi imported from {numqi.__file__}, not /repo/python')
+    if not numqi.__file__.startswith(REPO + '/python'):
+        print(f'ENGINE-FAULT numqi imported from {numqi.__file__}, not {REPO}/python')
         return 3
     mod = importlib.import_module(modname)
     if a.replay:
@@ -115,8 +119,8 @@ def finish(mod, prop, tier, seed, recs, t0, partial=False):
     refuted = [r for r in obs if r['verdict'] == 'refuted']
     undec = [r for r in obs if r['verdict'] == 'undecided']
     faults = [r for r in obs if r['verdict'] in ('fault', 'crash')]
-    os.makedirs(os.path.join(ROOT, 'evidence'), exist_ok=True)
-    rdir = os.path.join(ROOT, 'replays', prop)
+    os.makedirs(os.path.join(OUT, 'evidence'), exist_ok=True)
+    rdir = os.path.join(OUT, 'replays', prop)
     os.makedirs(rdir, exist_ok=True)
     for f in os.listdir(rdir):
         os.unlink(os.path.join(rdir, f))
@@ -143,7 +147,7 @@ def finish(mod, prop, tier, seed, recs, t0, partial=False):
                    detail=r.get('detail'), native=r.get('native'), backend=r.get('backend'), tier=r.get('tier'),
                    replayer=r.get('replayer'), verifier_output=r.get('verifier_output'),
                    how_to_replay=f'./check {prop} --replay {fn}')
-        json.dump(rec, open(os.path.join(ROOT, fn), 'w'), indent=1, default=str)
+        json.dump(rec, open(os.path.join(OUT, fn), 'w'), indent=1, default=str)
         tail = '' if r.get('witness') is not None else ' no-failing-input-found'
         lines.append(f'VIOLATION property={prop} replay={fn}{tail}')
     level = getattr(mod, 'LEVEL', 'other')
@@ -168,6 +172,7 @@ def finish(mod, prop, tier, seed, recs, t0, partial=False):
         functions_under_contract=fns,
         functions_checked_bounded_only=sorted({f for r in Bn for f in (r.get('functions') or [])} - set(fns)),
         discharged_by_backend=by_backend, solver_seconds=round(solver_s, 2),
+        max_solver_rlimit=max([m.get('max_rlimit', 0) for m in metas] or [0]), solver_rlimit_budget=int(os.environ.get('VERIF_RLIMIT', '0')) or {'quick': 2_000_000_000, 'thorough': 40_000_000_000}[tier],
         paths=sum(m.get('paths', 0) for m in metas), crosscheck_inputs=sum(m.get('crosscheck_inputs', 0) for m in metas),
         canaries_refuted=len([r for r in proved if r.get('canary_negated_clause_refuted')]),
         shapes=getattr(mod, 'SHAPES', {}).get(tier),
@@ -190,7 +195,7 @@ def finish(mod, prop, tier, seed, recs, t0, partial=False):
         cov['samples'] = [dict(note='no obligations ran')]
     ev = dict(property_id=prop, tier=tier, seed=seed, level=eff_level, coverage=cov,
               assumptions=list(getattr(mod, 'ASSUMPTIONS', [])), wall_s=round(time.time() - t0, 2), violations=nviol)
-    json.dump(ev, open(os.path.join(ROOT, 'evidence', f'{prop}.json'), 'w'), indent=1, default=str)
+    json.dump(ev, open(os.path.join(OUT, 'evidence', f'{prop}.json'), 'w'), indent=1, default=str)
     print(f'[{prop}] tier={tier} level={eff_level} P-obligations={n_ob} proved={len(proved)} refuted={len(refuted)} '
           f'undecided={len(undec)} faults={len(faults)} bounded-evals={bev} known={known} wall={time.time() - t0:.1f}s')
     for r in undec[:10]:
@@ -200,7 +205,9 @@ def finish(mod, prop, tier, seed, recs, t0, partial=False):
     if faults:
         for r in faults[:10]:
             print('ENGINE-FAULT', r['id'], (r.get('detail') or '')[:1500])
-        return 3
+        if not nviol:
+            return 3
+        # violations were confirmed by native replay on the real code and do not depend on the symbolic engine: they are reported (exit 1) next to the faults
     if n_ob + len(Bn) == 0:
         print('ENGINE-FAULT zero obligations generated')
         return 3
